@@ -23,16 +23,19 @@ impl FromStr for Move {
 
     fn from_str(s: &str) -> Result<Self, Self::Err> {
         fn parse(s: &str) -> Option<Move> {
+            // Exactly "<from><to>" or "<from><to><promotion>"
+            if s.len() != 4 && s.len() != 5 {
+                return None;
+            }
             Some(Move {
                 from: s.get(0..2)?.parse().ok()?,
                 to: s.get(2..4)?.parse().ok()?,
-                promotion: if let Some(promotion) = s.get(4..5) {
-                    let promotion = promotion.parse().ok()?;
+                promotion: if s.len() == 5 {
+                    let promotion = s.get(4..5)?.parse().ok()?;
                     if matches!(promotion, Piece::King | Piece::Pawn) {
-                        None
-                    } else {
-                        Some(promotion)
+                        return None;
                     }
+                    Some(promotion)
                 } else {
                     None
                 }
